@@ -11,13 +11,15 @@ LEVEL = "exploration"
 RULE = (
     "offset cases: one per (mode, ROM offset) in disjoint ranges (thorough: every offset of 0..0x3FFFFF x 3 modes), "
     "each judged by the textbook formula, the Bus offset where the Bus maps the address, and the round trip; "
-    "pointer cases: (base, pointer) / (base, 2 bytes) pairs hashed; batch cases: forward conversions of many offsets in all modes "
+    "pointer cases: (base, pointer) / (base, 2 bytes) pairs hashed, several results of one converter kept and judged after the last call, pointer tables with 2/3/4-byte entries "
+    "read through Script.read_pointers; batch cases: forward conversions of many offsets in all modes "
     "first, back conversions afterwards (the functions must not depend on the call history)"
 )
 ASSUMPTIONS = [
     "textbook: LoROM bank=o//0x8000 (+0x80 for the second variant), low word 0x8000+o%0x8000; HiROM 0xC00000+o",
     "Bus agreement is judged where the default buses map the address: LoROM o<0x380000, LoROM-2 o<0x280000, HiROM all 4 MiB",
     "snes_to_rom round trip for LoROM-2 only below 0x200000 (as the property states)",
+    "a table entry wider than 2 bytes holds the 16-bit value in its first two bytes; a refusal of such entries is unjudged",
 ]
 MODES = ("low", "low2", "high")
 SPACE = 0x400000
@@ -119,6 +121,59 @@ def check_pointer(res: Res, cx: Ctx, base: int, p: int) -> None:
         res.violate("long-pointer", f"long_low_rom_pointer({base:#x})({p:#x}) = {got.hex()}, expected {exp.hex()}", wit)
 
 
+def check_pointer_batch(res: Res, cx: Ctx, base: int, ps: list[int]) -> None:
+    """Several results of one converter are kept (a pointer table is built from them) and judged after the last call."""
+    from script import formulas
+
+    wit = {"kind": "pointer_batch", "base": base, "ps": ps}
+    res.case(("ptrs", base, tuple(ps)))
+    res.count("retained_pointer_results", len(ps))
+    try:
+        conv = formulas.long_low_rom_pointer(base)
+        kept = [conv(p) for p in ps]
+        table = b"".join(kept)
+    except Exception as e:  # noqa: BLE001
+        res.violate("pointer-raises", f"long_low_rom_pointer({base:#x}) over {len(ps)} pointers raised {e!r}", wit)
+        return
+    exp = []
+    for p in ps:
+        a = textbook(base + p, "low")
+        exp.append(bytes([a & 0xFF, (a >> 8) & 0xFF, (a >> 16) & 0xFF]))
+    for i, (g, e) in enumerate(zip(kept, exp)):
+        if bytes(g) != e:
+            res.violate("long-pointer-retained", f"long_low_rom_pointer({base:#x}): result {i} of {len(ps)} (p={ps[i]:#x}) reads {bytes(g).hex()} after the later calls, expected {e.hex()}", wit)
+            return
+    if table != b"".join(exp):
+        res.violate("long-pointer-retained", f"long_low_rom_pointer({base:#x}): joined table {table.hex()} expected {b''.join(exp).hex()}", wit)
+
+
+def check_table(res: Res, base: int, width: int, entries: list[bytes], lead: int) -> None:
+    """The consumer of the decoding formula: Script.read_pointers over a pointer table with `width`-byte entries
+    (16-bit pointer followed by flag / bank bytes when width > 2)."""
+    import io
+
+    from script import formulas
+    from script.pointers import Script
+
+    wit = {"kind": "table", "base": base, "width": width, "entries": [e.hex() for e in entries], "lead": lead}
+    res.case(("table", base, width, tuple(entries), lead))
+    res.count(f"table_entries_width_{width}", len(entries))
+    data = bytes(lead) + b"".join(entries)
+    try:
+        got = [p.address for p in Script(io.BytesIO(b"")).read_pointers(io.BytesIO(data), lead, len(entries), width, formulas.base_relative_16bits_pointer_formula(base))]
+    except Exception as e:  # noqa: BLE001
+        if width == 2:
+            res.violate("pointer-raises", f"read_pointers with base_relative_16bits_pointer_formula({base:#x}) raised {e!r}", wit)
+        else:
+            res.count("wide_entry_refused_unjudged")
+        return
+    exp = [e[0] + 256 * e[1] + base for e in entries]
+    if got != exp:
+        i = next(i for i, (g, x) in enumerate(zip(got, exp)) if g != x)
+        res.violate("base-relative" if width == 2 else "base-relative-wide-entry",
+                    f"entry {i} ({entries[i].hex()}, {width}-byte entries) decoded with base {base:#x} to {got[i]:#x}, expected 16-bit value + base = {exp[i]:#x}", wit)
+
+
 def check_rel(res: Res, base: int, lo: int, hi: int) -> None:
     from script import formulas
 
@@ -209,6 +264,15 @@ def run_shard(shard: dict) -> Res:
                 continue
             check_pointer(res, cx, base, p)
             check_rel(res, rng.randrange(0, SPACE), rng.choice([0, 1, 0x7F, 0x80, 0xFF, rng.randrange(256)]), rng.choice([0, 1, 0x7F, 0x80, 0xFF, rng.randrange(256)]))
+            if i % 8 == 0:
+                k = rng.randint(2, 9)
+                ps = [rng.choice(edges) if rng.random() < 0.3 else rng.randrange(0, 0x20000) for _ in range(k)]
+                if base + max(ps) < SPACE:
+                    check_pointer_batch(res, cx, base, ps)
+                width = rng.choice([2, 2, 3, 4])
+                entries = [bytes([rng.choice([0, 1, 0x7F, 0x80, 0xFF, rng.randrange(256)]) for _ in range(2)]) + bytes(rng.choice([0, 0, 1, 0x7E, 0x80, 0xFF, rng.randrange(256)]) for _ in range(width - 2))
+                           for _ in range(rng.randint(1, 8))]
+                check_table(res, rng.randrange(0, SPACE), width, entries, rng.choice([0, 0, 3, 0x200]))
             if i == 0:
                 res.sample({"pointer": {"base": hex(base), "p": hex(p)}})
     return res
@@ -225,6 +289,10 @@ def replay(w: dict) -> Res:
         check_offset(res, cx, w["mode"], w["o"])
     elif w["kind"] == "pointer":
         check_pointer(res, cx, w["base"], w["p"])
+    elif w["kind"] == "pointer_batch":
+        check_pointer_batch(res, cx, w["base"], w["ps"])
+    elif w["kind"] == "table":
+        check_table(res, w["base"], w["width"], [bytes.fromhex(e) for e in w["entries"]], w["lead"])
     else:
         check_rel(res, w["base"], w["lo"], w["hi"])
     return res
